@@ -7,15 +7,22 @@ spec:    specs/Defaults.tla - heap model of one default-valued member: every ins
          that recorded executions are judged with).  Two defect switches (ShareAbsent, ShallowCopy) must make TLC find
          counterexamples (non-vacuity of the invariants).
 binding: TLC emits EVERY history of exactly D calls (tree, history is part of the state; new instances take the lowest
-         free number and written values appear in order - both are interchangeable).  Each history is replayed on the
-         real classes for every (class, member) pair that reflection finds with an object valued `_default_py_value` or
-         a list valued member in pm_types, msg_types, eventing_types, addressing_types, dpws_types, mex_types,
-         wsd_types, descriptorcontainers, statecontainers (verif/c12_helpers.py).  After every call the harness records
-         the canonical value of the member of every live instance, the identity (`is`) of the nested objects, and the
-         value of a freshly constructed instance.  TLC judges the recorded traces (DefaultsTrace.tla).
-         Recorded traces are abstract (no class names), so identical traces of different pairs are judged once.
-depth:   pairs with an object valued default get the deepest tree; the first class that carries a given list property
-         descriptor gets the medium tree; classes that merely inherit that descriptor get the short tree.
+         free number and written values appear in order - both are interchangeable; shorter trees are the prefixes).
+         Each history is replayed on the real classes for every (class, member) pair that reflection finds with an
+         object valued `_default_py_value` or a list valued member in pm_types, msg_types, eventing_types,
+         addressing_types, dpws_types, mex_types, wsd_types, descriptorcontainers, statecontainers
+         (verif/c12_helpers.py; worker processes, one task per pair).  After every call the harness records the
+         canonical value of the member of every live instance, the identity (`is`) of the mutable objects the values
+         consist of, and the value of a freshly constructed instance.  TLC judges the recorded traces
+         (DefaultsTrace.tla).  Recorded traces are abstract (no class names), so identical traces of different pairs
+         are judged once.
+depth:   thorough: object valued defaults D=5 (classes that merely inherit the descriptor: 4), list members 4
+         (inherited descriptor: 3).  quick: object valued 4 (inherited 3), one list pair per kind of descriptor 3,
+         all other list pairs 2.
+verdict: one violation per (descriptor class, call that established the sharing, failing call, clause); descr fields
+         check='defaults', descriptor, shared_by, act, clause.  Value-level clauses (step, isolated,
+         default_untouched, default_stable) are preferred; sharing seen only as identity is reported as no_sharing.
+--replay path: replays the stored history of the stored pair and lets TLC judge it.
 """
 from __future__ import annotations
 
@@ -352,10 +359,11 @@ def judge(run, members, users, sigs, traces):
         val_rj = [(li, c) for li, c in rj if c in VALUE_CLAUSES]
         li, clause = (val_rj or rj)[0]
         rec = traces[ti][li]
-        shared_at = None      # last call up to the failure after which the recorded sharing pattern is a new one
+        shared_at = None      # last call up to the failure after which an instance shares objects it did not before
         for x in range(1, li + 1):
-            if traces[ti][x]['ref'] != traces[ti][x - 1]['ref'] and \
-                    traces[ti][x]['ref'] != list(range(1, N + 1)) and any(a == x for a, c in rj if c == 'no_sharing'):
+            now, before = traces[ti][x], traces[ti][x - 1]
+            if any(now['ref'][i - 1] != i and (i not in before['live'] or before['ref'][i - 1] != now['ref'][i - 1])
+                   for i in now['live']):
                 shared_at = x
         shared_by = traces[ti][shared_at]['act'] if shared_at is not None else 'none'
         beh = [{'act': 'Init'}] + [{k: v for k, v in (('act', r['act']), ('i', r['i']), ('s', r['s']), ('v', r['v']))
@@ -376,10 +384,18 @@ def judge(run, members, users, sigs, traces):
                             'first_shared_record': shared_at})
     # sharing that also shows as a value change is reported through the value change only
     value_roots = {(k[0], k[1]) for k in found if k[3] in VALUE_CLAUSES}
+    for key, info in sorted(found.items()):     # (their pairs are listed with the value-level entries)
+        if key[3] == 'no_sharing' and (key[0], key[1]) in value_roots:
+            for k2, other in found.items():
+                if k2[3] in VALUE_CLAUSES and k2[:2] == key[:2]:
+                    other.setdefault('members_sharing_seen_as_identity_only', set()).update(info['members'])
     for key, info in sorted(found.items()):
         descriptor, shared_by, act, clause = key
         if clause == 'no_sharing' and (descriptor, shared_by) in value_roots:
             continue
+        if 'members_sharing_seen_as_identity_only' in info:
+            info['members_sharing_seen_as_identity_only'] = sorted(
+                info['members_sharing_seen_as_identity_only'] - set(info['members']))
         descr = {'check': 'defaults', 'descriptor': descriptor, 'shared_by': shared_by, 'act': act, 'clause': clause}
         info['members'] = sorted(info['members'])
         hist_txt = ' ; '.join(_op_txt(o) for o in info['behaviour'][1:info['failing_record'] + 1])
